@@ -33,6 +33,8 @@ CONSTANTS
   StructAllSeeds,   \* FALSE: the structural JOSE operators skip the non-representative full JSON seeds
   RandLens, NRand,  \* purely random inputs: lengths and how many per length
   NodeIdx,          \* DER node indices for the TLV operators (in addition to the position classes)
+  InnerNodeIdx,     \* DER node indices (pre-order) the inner-truncation operators are applied to
+  ForgeAlgs,        \* key management algorithms of the Forge family
   ByteOpsAllSeeds,  \* FALSE: the byte-level operators of JWS/JWE run on representative seeds only (they are
                     \* blind to the algorithm), the structural ones on every seed
   PanicOnForbidden  \* named deviation (non-vacuity): a decoder that panics on a forbidden marker
@@ -41,7 +43,7 @@ VARIABLES pc, fmt, seed, ld, wrap, sym, nmut, hist, returned
 vars == <<pc, fmt, seed, ld, wrap, sym, nmut, hist, returned>>
 
 LdFormats  == {"rtmpchunk", "rtmpmsg", "amf0", "flv", "flvtag", "aac", "avc", "ws"}
-SymFormats == {"jws", "jwe", "jwk", "ocspresp", "ocspreq", "jsonplus"}
+SymFormats == {"jws", "jwe", "jweforge", "jwk", "ocspresp", "ocspreq", "jsonplus"}
 
 \* ======================================================================
 \* (1) GRAMMARS: valid encodings as layout descriptors
@@ -127,11 +129,44 @@ H1(cid, dts, len, ty)     == <<BH(1, cid), U24(dts), U24(len), U8(ty)>>
 H2(cid, dts)              == <<BH(2, cid), U24(dts)>>
 H3(cid)                   == <<BH(3, cid)>>
 ConnectBody == CmdHead(S_connect, Num1) \o AppObj
+
+\* A chunk stream as a sequence of chunks that know the message they carry: recv = bytes of that message the receiver
+\* holds before this chunk, len = the declared message length (RTMP 1.0 5.3.1: a message is split into chunks of at most
+\* the chunk size; continuation chunks use fmt 3).  The operator Restate works on this structure.
+Min2(a, b) == IF a < b THEN a ELSE b
+MsgChunks(cid, ts, len, ty, sid, csz, id) ==
+  [i \in 1..((len + csz - 1) \div csz) |->
+     [cid |-> cid, f |-> IF i = 1 THEN 0 ELSE 3, ts |-> ts, len |-> len, ty |-> ty, sid |-> sid,
+      n |-> Min2(csz, len - (i - 1) * csz), id |-> id, off |-> (i - 1) * csz, recv |-> (i - 1) * csz]]
+ChunkHdr(c) == CASE c.f = 0 -> H0(c.cid, c.ts, c.len, c.ty, c.sid)
+                 [] c.f = 1 -> H1(c.cid, c.ts, c.len, c.ty)
+                 [] c.f = 2 -> H2(c.cid, c.ts)
+                 [] OTHER   -> H3(c.cid)
+RECURSIVE ChunksLD(_)
+ChunksLD(cs) == IF cs = <<>> THEN <<>> ELSE ChunkHdr(Head(cs)) \o <<FillOff(Head(cs).n, Head(cs).id, Head(cs).off)>> \o ChunksLD(Tail(cs))
+SeqLD(q) == q.pre \o ChunksLD(q.chunks)
+MsgA == MsgChunks(7, 0, 200, 9, 1, 128, 14)
+MsgB == MsgChunks(8, 0, 150, 8, 1, 128, 15)
+ChunkSeqs ==
+  [multi      |-> [pre |-> <<>>, chunks |-> MsgChunks(7, 40, 300, 9, 1, 128, 1)],
+   scs1       |-> [pre |-> H0(2, 0, 4, 1, 0) \o <<U32(1)>>, chunks |-> MsgChunks(5, 0, 3, 18, 1, 1, 11)],
+   interleave |-> [pre |-> <<>>, chunks |-> <<MsgA[1], MsgB[1], MsgA[2], MsgB[2]>>],
+   scs4k      |-> [pre |-> H0(2, 0, 4, 1, 0) \o <<U32(4096)>>,
+                  chunks |-> MsgChunks(6, 5, 9000, 9, 1, 4096, 19) \o MsgChunks(6, 45, 20, 8, 1, 4096, 20)]]
+\* Restate: while a message is in progress (recv > 0) the next chunk of its chunk stream carries a full header
+\* (fmt 0 or 1) that states the message length again, with boundary values relative to what was received and
+\* declared, resp. another type id / stream id.
+RestateVals == {"0", "1", "recv-1", "recv", "recv+1", "decl-1", "decl", "decl+1", "max", "ty0", "ty1", "ty255", "tyinc", "sid0", "sidinc"}
+Restated(c, f, v) ==
+  LET l == CASE v = "0" -> 0 [] v = "1" -> 1 [] v = "recv-1" -> c.recv - 1 [] v = "recv" -> c.recv [] v = "recv+1" -> c.recv + 1
+             [] v = "decl-1" -> c.len - 1 [] v = "decl+1" -> c.len + 1 [] v = "max" -> 16777215 [] OTHER -> c.len
+      t == CASE v = "ty0" -> 0 [] v = "ty1" -> 1 [] v = "ty255" -> 255 [] v = "tyinc" -> c.ty + 1 [] OTHER -> c.ty
+      sd == CASE v = "sid0" -> 0 [] v = "sidinc" -> c.sid + 1 [] OTHER -> c.sid
+  IN [c EXCEPT !.f = f, !.len = l, !.ty = t, !.sid = sd]
 RtmpChunkSeeds == <<
+  [name |-> "multi", arg |-> 0, ok |-> "rtmp.read", ld |-> SeqLD(ChunkSeqs.multi)],
   [name |-> "single", arg |-> 0, ok |-> "rtmp.read",
    ld |-> H0(3, 0, ByteLen(ConnectBody), 20, 0) \o ConnectBody],
-  [name |-> "multi", arg |-> 0, ok |-> "rtmp.read",
-   ld |-> H0(7, 40, 300, 9, 1) \o <<Fill(128, 1)>> \o H3(7) \o <<FillOff(128, 1, 128)>> \o H3(7) \o <<FillOff(44, 1, 256)>>],
   [name |-> "scs", arg |-> 0, ok |-> "rtmp.read",
    ld |-> H0(2, 0, 4, 1, 0) \o <<U32(4096)>> \o H0(7, 0, 300, 9, 1) \o <<Fill(300, 2)>>],
   [name |-> "extts", arg |-> 0, ok |-> "rtmp.read",
@@ -144,11 +179,9 @@ RtmpChunkSeeds == <<
    ld |-> <<U8(1), U8(1), U8(1), U24(0), U24(3), U8(9), U32LE(1), Fill(3, 10)>>],
   [name |-> "ping1", arg |-> 0, ok |-> "rtmp.read",
    ld |-> H1(2, 0, 6, 4) \o <<U16(6), U32(0)>>],
-  [name |-> "scs1", arg |-> 0, ok |-> "rtmp.read",
-   ld |-> H0(2, 0, 4, 1, 0) \o <<U32(1)>> \o H0(5, 0, 3, 18, 1) \o <<Fill(1, 11)>> \o H3(5) \o <<Fill(1, 12)>> \o H3(5) \o <<Fill(1, 13)>>],
-  [name |-> "interleave", arg |-> 0, ok |-> "rtmp.read",
-   ld |-> H0(7, 0, 200, 9, 1) \o <<Fill(128, 14)>> \o H0(8, 0, 150, 8, 1) \o <<Fill(128, 15)>>
-          \o H3(7) \o <<Fill(72, 16)>> \o H3(8) \o <<Fill(22, 17)>>],
+  [name |-> "scs1", arg |-> 0, ok |-> "rtmp.read", ld |-> SeqLD(ChunkSeqs.scs1)],
+  [name |-> "interleave", arg |-> 0, ok |-> "rtmp.read", ld |-> SeqLD(ChunkSeqs.interleave)],
+  [name |-> "scs4k", arg |-> 0, ok |-> "rtmp.read", ld |-> SeqLD(ChunkSeqs.scs4k)],
   [name |-> "ctl", arg |-> 0, ok |-> "rtmp.read",
    ld |-> H0(2, 0, 4, 5, 0) \o <<U32(2500000)>> \o H0(2, 0, 5, 6, 0) \o <<U32(2500000), U8(2)>>
           \o H0(2, 0, 6, 4, 0) \o <<U16(0), U32(1)>> \o H0(2, 0, 4, 2, 0) \o <<U32(7)>> \o H0(2, 0, 4, 3, 0) \o <<U32(100)>>],
@@ -258,6 +291,9 @@ AllSeeds(f) ==
 Cap(s) == IF Len(s) <= SeedCap THEN s ELSE SubSeq(s, 1, SeedCap)
 Seeds(f) == Cap(AllSeeds(f))
 
+\* a symbolic operator instance: (operator, position class / member name / part, value class, integer)
+Y(o, p, v, n) == [o |-> o, p |-> p, v |-> v, n |-> n]
+
 \* ---- symbolic grammars: the replayer builds these objects with the library / crypto/x509
 JwsAlgs == {"RS256", "RS384", "RS512", "PS256", "PS384", "PS512", "ES256", "ES384", "ES512", "HS256", "HS384", "HS512"}
 JweKeyAlgs == {"RSA1_5", "RSA-OAEP", "RSA-OAEP-256", "A128KW", "A192KW", "A256KW", "dir", "ECDH-ES",
@@ -280,8 +316,27 @@ OcspRespSeedSet == {[name |-> n] : n \in {"vec.cert", "vec.nocert", "vec.ext", "
 OcspReqSeedSet == {[name |-> n] : n \in {"vec", "created.sha1", "created.sha256"}}
 JsonPlusSeedSet == {[name |-> n] : n \in {"plain", "line", "block", "mixed", "strings", "squote", "escaped", "nested",
                                            "commentlike", "unterminated.str", "unterminated.block", "slashes"}}
+\* Forge: the hostile sender HOLDS the content encryption key.  With RSA1_5 / RSA-OAEP / ECDH-ES(+KW) every sender picks
+\* the CEK itself (it only needs the recipient's public key), with dir / A*KW / A*GCMKW a key-holding peer does.  Such a
+\* sender authenticates whatever it likes, so everything behind the tag check is reachable with hostile content: the
+\* replayer (with its own AES-CBC / HMAC-SHA2 per RFC 7518 5.2.2.1, AES-GCM, RFC 3394 key wrap, Concat KDF - not the
+\* library's) builds objects whose INNER content is hostile but correctly authenticated, for every content encryption
+\* and key management class, in both serialisations.  The unmutated seed of this format is an honest object of that
+\* writer (the library must decrypt it: that binds the writer to RFC 7516).
+\* Nothing like it is needed for JWS: a signature covers the payload only, nothing is parsed after it verified.
+JweForgeSeedSet == {[alg |-> a, enc |-> e, form |-> fo] : a \in ForgeAlgs, e \in JweEncs, fo \in {"compact", "full"}}
+ForgeOps ==
+  \* ciphertext body: empty; not a multiple of the block; one block whose padding byte is 0 / 17 / 255 / not
+  \* repeated; a full block of padding (valid: empty plaintext); a single byte (GCM)
+  {Y("forge", "ct", v, 0) : v \in {"empty", "notblock", "pad0", "pad17", "pad255", "padmix", "pad16", "one"}}
+  \* authenticated initialisation vectors of the wrong length
+  \cup {Y("forge", "iv", v, 0) : v \in {"0", "11", "13", "15", "17"}}
+  \* "zip":"DEF" over an authenticated plaintext that is not / not completely a DEFLATE stream, or a very compressible one
+  \cup {Y("forge", "zip", v, 0) : v \in {"notdeflate", "truncated", "empty", "bomb64k", "bomb1m"}}
+  \* an encrypted_key that unwraps correctly - to a CEK of the wrong size
+  \cup {Y("forge", "cek", v, 0) : v \in {"0", "1", "8", "15", "17", "24", "31", "33", "40", "47", "63", "72"}}
 SymSeedSet(f) ==
-  CASE f = "jws" -> JwsSeedSet [] f = "jwe" -> JweSeedSet [] f = "jwk" -> JwkSeedSet
+  CASE f = "jws" -> JwsSeedSet [] f = "jwe" -> JweSeedSet [] f = "jweforge" -> JweForgeSeedSet [] f = "jwk" -> JwkSeedSet
     [] f = "ocspresp" -> OcspRespSeedSet [] f = "ocspreq" -> OcspReqSeedSet [] f = "jsonplus" -> JsonPlusSeedSet
 
 \* named parts of the serialisations (RFC 7515 7.1/7.2, RFC 7516 7.1/7.2) and header members (RFC 7515 4.1, RFC 7518 4.6/4.7)
@@ -417,6 +472,13 @@ SpliceA ==
        \E k1 \in 0..Len(ld) : \E k2 \in 1..Len(o) + 1 :
           /\ k2 <= k1 + 1 + SpliceWindow /\ k1 <= k2 + SpliceWindow
           /\ Step(Splice(ld, k1, o, k2), H("splice", k1, k2, ""))
+RestateA ==
+  /\ CanMutate /\ nmut = 0 /\ fmt = "rtmpchunk" /\ "restate" \in OpsNow /\ seed.name \in DOMAIN ChunkSeqs
+  /\ LET q == ChunkSeqs[seed.name] IN
+       \E k \in 1..Len(q.chunks) : q.chunks[k].recv > 0 /\ \E f \in {0, 1} : \E v \in RestateVals :
+          LET c2 == Restated(q.chunks[k], f, v) IN
+          /\ c2.len >= 0 /\ c2.len <= 16777215 /\ c2.ty <= 255
+          /\ Step(q.pre \o ChunksLD([q.chunks EXCEPT ![k] = c2]), H("restate", k, f, v))
 NestA ==
   /\ CanMutate /\ fmt \in LdFormats /\ "nest" \in OpsNow /\ wrap = NoWrap
   /\ \E c \in Containers(fmt) : \E d \in NestDepths : \E cl \in Closings(d) :
@@ -428,11 +490,16 @@ NestA ==
 \* symbolic operators: (operator, position class / member name, value class, integer), concretised by the replayer
 SymStep(o) == /\ sym' = Append(sym, o) /\ nmut' = nmut + 1
               /\ UNCHANGED <<pc, fmt, seed, ld, wrap, hist, returned>>
-Y(o, p, v, n) == [o |-> o, p |-> p, v |-> v, n |-> n]
 TlvOps(p, n) ==
   {Y("tlvlen", p, v, n) : v \in TlvLenVals} \cup {Y("tlvtag", p, v, n) : v \in TlvTagVals}
   \cup {Y("tlvdrop", p, "", n), Y("tlvdup", p, "", n), Y("tlvempty", p, "", n)}
   \cup {Y("tlvnest", p, "d" , n + 1000 * d) : d \in NestDepths}
+\* a node is replaced by a truncated / inconsistent version of ITSELF while every enclosing layer stays well formed
+\* (lengths re-computed), so that the mutation reaches the parser of the inner value: the tag byte only, tag and
+\* length without content (the enclosing content ends there), tag and length 0, a length one larger than / far beyond
+\* what is there, another tag over the same content, the content cut to one byte / by one byte
+TlvInnerVals == {"tagonly", "taglen", "taglen0", "lenbig", "lenhuge", "wrongtag", "cut1", "cutm1"}
+TlvInnerOps == {Y("tlvinner", "idx", v, n) : v \in TlvInnerVals, n \in InnerNodeIdx}
 \* seeds the byte-level operators run on
 Representative(f, sd) ==
   IF ByteOpsAllSeeds \/ f \notin {"jws", "jwe"} THEN TRUE
@@ -460,12 +527,14 @@ SymOpsOf(f) ==
              \cup {Y("hdrop", m, "", 0) : m \in HeaderMembers}
              \cup {Y("hmove", m, w, 0) : m \in {"alg", "enc", "zip", "epk", "iv", "tag"}, w \in {"protected", "unprotected", "header"}}
         ELSE {})
+  \cup (IF "forge" \in OpsNow /\ f = "jweforge" /\ nmut = 0 THEN ForgeOps ELSE {})
   \cup (IF "tlv" \in OpsNow /\ f \in {"ocspresp", "ocspreq"}
-        THEN UNION {TlvOps(p, 0) : p \in PosClasses} \cup UNION {TlvOps("idx", n) : n \in NodeIdx}
+        THEN UNION {TlvOps(p, 0) : p \in PosClasses} \cup UNION {TlvOps("idx", n) : n \in NodeIdx} \cup TlvInnerOps
         ELSE {})
 SymMutate ==
   /\ CanMutate /\ fmt \in SymFormats
   /\ \E o \in SymOpsOf(fmt) :
+       /\ (IF fmt = "jweforge" /\ nmut = 0 THEN o.o = "forge" ELSE TRUE)
        /\ (IF ByteLevel(o) THEN Representative(fmt, seed) ELSE TRUE)
        /\ (IF Structural(o) THEN StructSeed(fmt, seed) ELSE TRUE)
        /\ SymStep(o)
@@ -474,8 +543,8 @@ SymMutate ==
 Randomize ==
   /\ pc = "mut" /\ nmut = 0 /\ "random" \in Ops1
   /\ \E n \in RandLens : \E i \in 0..NRand - 1 : sym' = <<Y("random", "", "", n * 100 + i)>>
-  /\ ld' = <<>> /\ nmut' = 1 /\ pc' = "call"
-  /\ UNCHANGED <<fmt, seed, wrap, hist, returned>>
+  /\ ld' = <<>> /\ nmut' = 1 /\ pc' = "call" /\ seed' = [name |-> "random"]
+  /\ UNCHANGED <<fmt, wrap, hist, returned>>
 
 Ready == /\ pc = "mut" /\ pc' = "call"
          /\ UNCHANGED <<fmt, seed, ld, wrap, sym, nmut, hist, returned>>
@@ -489,7 +558,7 @@ Decode ==
   /\ pc' = "done"
   /\ UNCHANGED <<fmt, seed, ld, wrap, sym, nmut, hist>>
 
-Mutate == Truncate \/ SetFieldA \/ DupFieldA \/ DropFieldA \/ SpliceA \/ NestA \/ SymMutate \/ Randomize
+Mutate == Truncate \/ SetFieldA \/ DupFieldA \/ DropFieldA \/ SpliceA \/ NestA \/ RestateA \/ SymMutate \/ Randomize
 Next == PickLd \/ PickSym \/ Mutate \/ Ready \/ Decode
 Spec == Init /\ [][Next]_vars
 GenNext == PickLd \/ PickSym \/ Mutate \/ Ready        \* generation stops at the call
@@ -562,6 +631,8 @@ ScaleCasesLd(B) ==
   Fam("rtmp.msg.pairs", "rtmpmsg", "rtmp.msg", 20, B, CmdHead(S_connect, Num1) \o <<U8(3)>>, Key(S_a) \o Num(1), ObjEnd, <<>>),
   Fam("rtmp.messages", "rtmpchunk", "rtmp.read", 0, B, <<>>, H0(5, 1, 8, 9, 1) \o <<Fill(8, 2)>>, <<>>, <<>>),
   Fam("rtmp.bigmessage", "rtmpchunk", "rtmp.read", 0, B, H0(7, 0, 128 * (n128 + 1), 9, 1) \o <<Fill(128, 1)>>, H3(7) \o <<Fill(128, 2)>>, <<>>, <<>>),
+  Fam("rtmp.bigmessage1", "rtmpchunk", "rtmp.read", 0, B,
+      H0(2, 0, 4, 1, 0) \o <<U32(1)>> \o H0(7, 0, RepsFor(B, H3(7) \o <<Fill(1, 2)>>, <<>>) + 1, 9, 1) \o <<Fill(1, 1)>>, H3(7) \o <<Fill(1, 2)>>, <<>>, <<>>),
   Fam("rtmp.chunks1", "rtmpchunk", "rtmp.read", 0, B,
       H0(2, 0, 4, 1, 0) \o <<U32(1)>>, H0(5, 1, 2, 9, 1) \o <<Fill(1, 3)>> \o H3(5) \o <<Fill(1, 4)>>, <<>>, <<>>),
   Fam("rtmp.emptymessages", "rtmpchunk", "rtmp.read", 0, B, <<>>, H0(5, 1, 0, 9, 1), <<>>, <<>>),
